@@ -18,6 +18,25 @@ import (
 
 var refStop = nlp.StopWords()
 
+// IsStop reports whether w is a stop word of the tree under test.
+func IsStop(w string) bool { return refStop[strings.ToLower(w)] }
+
+// StopFiller returns about n bytes of words that carry no content (stop words and one-letter tokens).
+func StopFiller(pick func(int) int, n int) string {
+	var cand []string
+	for _, w := range []string{"the", "a", "of", "to", "and", "is", "it", "in", "on", "for", "with", "how", "do", "i", "please", "can", "you", "me", "my", "that", "this", "an", "be", "so", "s", "x"} {
+		if len(w) < 2 || refStop[w] {
+			cand = append(cand, w)
+		}
+	}
+	var b strings.Builder
+	for b.Len() < n {
+		b.WriteString(cand[pick(len(cand))])
+		b.WriteByte(' ')
+	}
+	return strings.TrimSpace(b.String())
+}
+
 func Tokenize(s string) []string {
 	var out []string
 	start := -1
